@@ -551,9 +551,39 @@ func init() {
 	intrinsics["(google.golang.org/protobuf/internal/impl.Export).EnumStringOf"] = func(e *Engine, fn *ssa.Function, a []Value) Value {
 		return Str{S: "<enum>", Conc: true}
 	}
+	// reflect.TypeOf / reflect.TypeFor: an opaque, canonical token per Go type (enough for
+	// using reflect.Type values as map keys, which is all the code under test does)
+	intrinsics["reflect.TypeOf"] = func(e *Engine, fn *ssa.Function, a []Value) Value {
+		iv := a[0].(Iface)
+		if iv.T == nil {
+			return Iface{}
+		}
+		return e.reflectType(iv.T)
+	}
+	intrinsics["reflect.TypeFor"] = func(e *Engine, fn *ssa.Function, a []Value) Value {
+		ta := fn.TypeArgs()
+		if len(ta) != 1 {
+			e.unsupported("reflect.TypeFor without a type argument")
+		}
+		return e.reflectType(ta[0])
+	}
 	intrinsics["runtime.KeepAlive"] = func(e *Engine, fn *ssa.Function, a []Value) Value { return Tuple(nil) }
 	intrinsics["internal/godebug.New"] = nil
 	delete(intrinsics, "internal/godebug.New")
+}
+
+func (e *Engine) reflectType(t types.Type) Value {
+	rp := e.prog.ImportedPackage("reflect")
+	if rp == nil || rp.Type("rtype") == nil {
+		e.unsupported("package reflect is not loaded")
+	}
+	key := "rtype!" + t.String()
+	h, _ := e.hostState[key].(*Host)
+	if h == nil {
+		h = &Host{Kind: "reflect.rtype", Data: t}
+		e.hostState[key] = h
+	}
+	return Iface{T: types.NewPointer(rp.Type("rtype").Type()), V: h}
 }
 
 func memoKey(tab string, parts Slice) string {
